@@ -151,7 +151,7 @@ func run(c *hl.Ctx) error {
 	}
 	g := &lay.Gen{R: r}
 	var jobs []lay.Job
-	nProg := lay.DevN(c.Pick(500, 8000))
+	nProg := lay.DevN(c.Pick(800, 8000))
 	weights := []string{"core", "deep", "styled", "deep", "styled", "grid", "near", "nested", "deep", "names", "boards", "styled"}
 	for i := 0; i < nProg; i++ {
 		p := weights[i%len(weights)]
